@@ -125,20 +125,33 @@ class _Unroll(ast.NodeTransformer):
             return node
         if self.keep is not None and self.keep(node, rows):
             return node
+        stored = set()
         for st in node.body:
             for x in ast.walk(st):
                 if isinstance(x, (ast.Break, ast.Continue)):
                     return node
-                # a store to a loop target inside the body defeats
-                # substitution
                 if isinstance(x, ast.Name) and isinstance(
-                        x.ctx, (ast.Store, ast.Del)) and x.id in names:
+                        x.ctx, ast.Del) and x.id in names:
                     return node
+                # a loop target that the body re-binds gets a fresh name
+                # per iteration, initialised from the row
+                if isinstance(x, ast.Name) and isinstance(
+                        x.ctx, ast.Store) and x.id in names:
+                    stored.add(x.id)
         out = []
-        for r in rows:
-            m = dict(zip(names, r))
+        for k, r in enumerate(rows):
+            m = {n_: v for n_, v in zip(names, r) if n_ not in stored}
+            ren = {n_: '%s__%d' % (n_, k + 1) for n_ in stored}
+            for n_, v in zip(names, r):
+                if n_ in stored:
+                    out.append(ast.copy_location(ast.Assign(
+                        targets=[ast.Name(id=ren[n_], ctx=ast.Store())],
+                        value=copy.deepcopy(v)), node))
             for st in node.body:
-                out.append(_subst(st, m))
+                st2 = _subst(st, m)
+                if ren:
+                    st2 = _Rename(ren).visit(st2)
+                out.append(st2)
         self.count += 1
         return out
 
@@ -919,6 +932,21 @@ def inline_new_helpers(tree, rel):
                     if isinstance(x, ast.FunctionDef) and x is not n:
                         x.body = inl.rewrite_block(x.body)
     apply(tree.body)
+    # module level: `_register_defaults(profile)` as a statement
+    new_body, expanded = [], False
+    for st in tree.body:
+        if isinstance(st, ast.Expr) and isinstance(st.value, ast.Call):
+            fd, recv = inl.resolve(st.value)
+            if fd is not None and recv is None:
+                res = inl.expand(st.value, fd, recv)
+                if res is not None:
+                    new_body.extend(res[0])
+                    expanded = True
+                    continue
+        new_body.append(st)
+    if expanded:
+        tree.body = new_body
+        _unroll_module_level_loops(tree)
     # expression helpers (one `return <expr>`) are also inlined where they
     # are used inside expressions (conditions, arguments)
     ehelpers = {}
@@ -1585,7 +1613,16 @@ def _unroll_module_level_loops(tree):
     if not isinstance(tree, ast.Module):
         return
     out, dropped = [], set()
+    consts = {}
     for st in tree.body:
+        if isinstance(st, ast.Assign) and len(st.targets) == 1 and \
+                isinstance(st.targets[0], ast.Name):
+            consts.setdefault(st.targets[0].id, []).append(st.value)
+    for st in tree.body:
+        if isinstance(st, ast.For) and isinstance(st.iter, ast.Name) and \
+                len(consts.get(st.iter.id, [])) == 1 and _literal_rows(
+                consts[st.iter.id][0]) is not None:
+            st.iter = copy.deepcopy(consts[st.iter.id][0])
         if isinstance(st, ast.For):
             un = _Unroll(None)
             res = un.visit_For(st)
@@ -1601,7 +1638,49 @@ def _unroll_module_level_loops(tree):
     tree.body = out
 
 
+def _hoist_walrus(tree):
+    """`if (x := E) <op> y:` / `if not (x := E):` / `if (x := E):` is read as
+    `x = E` followed by the test on `x` (the assignment expression is the
+    first thing the statement evaluates)."""
+    for holder in ast.walk(tree):
+        for fld in ('body', 'orelse', 'finalbody'):
+            blk = getattr(holder, fld, None)
+            if not isinstance(blk, list) or not blk or not isinstance(
+                    blk[0], ast.stmt):
+                continue
+            out = []
+            for st in blk:
+                if isinstance(st, ast.If):
+                    owner, attr, t = st, 'test', st.test
+                    for _ in range(3):
+                        if isinstance(t, ast.UnaryOp) and isinstance(
+                                t.op, ast.Not):
+                            owner, attr, t = t, 'operand', t.operand
+                        elif isinstance(t, ast.Compare):
+                            owner, attr, t = t, 'left', t.left
+                        elif isinstance(t, ast.BoolOp):
+                            owner, attr, t = t.values, 0, t.values[0]
+                        else:
+                            break
+                    if isinstance(t, ast.NamedExpr) and isinstance(
+                            t.target, ast.Name):
+                        out.append(ast.copy_location(ast.Assign(
+                            targets=[ast.Name(id=t.target.id,
+                                              ctx=ast.Store())],
+                            value=t.value), st))
+                        repl = ast.copy_location(
+                            ast.Name(id=t.target.id, ctx=ast.Load()), t)
+                        if isinstance(owner, list):
+                            owner[attr] = repl
+                        else:
+                            setattr(owner, attr, repl)
+                out.append(st)
+            setattr(holder, fld, out)
+    ast.fix_missing_locations(tree)
+
+
 def canonical_forms(tree):
+    _hoist_walrus(tree)
     _unroll_module_level_loops(tree)
     _expand_literal_generators(tree)
     _split_tuple_assigns(tree)
@@ -1609,3 +1688,146 @@ def canonical_forms(tree):
     new = _Canon().visit(tree)
     ast.fix_missing_locations(new)
     return new
+
+
+_KNOWN_NESTED = None
+
+
+def known_nested(rel):
+    global _KNOWN_NESTED
+    if _KNOWN_NESTED is None:
+        p = _os.path.join(_os.path.dirname(_os.path.abspath(__file__)),
+                          'known_nested.json')
+        try:
+            with open(p) as fh:
+                _KNOWN_NESTED = _json.load(fh)
+        except OSError:
+            _KNOWN_NESTED = {}
+    return set(_KNOWN_NESTED.get(rel, ()))
+
+
+def inline_new_nested_helpers(tree, rel):
+    """A nested single-exit function that the reviewed tree did not have,
+    called as a statement / assignment / return / `if` test inside the
+    function that defines it, is read where it is called (its free names are
+    looked up at call time either way).  Generators, decorated functions and
+    helpers that are also passed around as values are left alone."""
+    known = known_nested(rel)
+    count = 0
+
+    def visit(body, prefix):
+        nonlocal count
+        for n in body:
+            if isinstance(n, ast.ClassDef):
+                visit(n.body, prefix + n.name + '.')
+            elif isinstance(n, ast.FunctionDef):
+                q = prefix + n.name
+                helpers = {}
+                for st in n.body:
+                    if isinstance(st, ast.FunctionDef) and \
+                            not st.decorator_list and \
+                            (q + '.' + st.name) not in known and not any(
+                            isinstance(x, (ast.Yield, ast.YieldFrom,
+                                           ast.Nonlocal, ast.Global))
+                            for x in ast.walk(st)) and \
+                            _single_exit(st) is not None:
+                        # every reference is a direct call
+                        refs = [x for x in ast.walk(n) if isinstance(
+                            x, ast.Name) and x.id == st.name and
+                            isinstance(x.ctx, ast.Load)]
+                        calls = [x for x in ast.walk(n) if isinstance(
+                            x, ast.Call) and isinstance(x.func, ast.Name)
+                            and x.func.id == st.name]
+                        inside = [x for x in refs if any(
+                            y is x for y in ast.walk(st))]
+                        if refs and len(refs) == len(calls) and not inside:
+                            helpers[('', st.name)] = st
+                if not helpers:
+                    continue
+                inl = _StmtInliner(helpers, set())
+                for _ in range(2):
+                    before = inl.count
+                    n.body = inl.rewrite_block(n.body)
+                    if inl.count == before:
+                        break
+                count += inl.count
+                # drop helpers no longer referenced
+                for (_, name), fd in helpers.items():
+                    still = any(isinstance(x, ast.Name) and x.id == name and
+                                isinstance(x.ctx, ast.Load)
+                                for x in ast.walk(n))
+                    if not still and fd in n.body:
+                        n.body.remove(fd)
+    visit(tree.body, '')
+    if count:
+        ast.fix_missing_locations(tree)
+    return count
+
+
+def simplify_pure_function(fd, module_tree=None):
+    """Copy of a small side-effect free function with (1) subscripts of
+    module-level literal dicts by a constant key resolved, (2) tuple
+    assignments split, (3) locals that are assigned once substituted into
+    their uses, (4) conditional expressions with a constant test folded.
+    For functions that only read their arguments (the err tests)."""
+    f = copy.deepcopy(fd)
+    consts = {}
+    if module_tree is not None:
+        for st in module_tree.body:
+            if isinstance(st, ast.Assign) and len(st.targets) == 1 and \
+                    isinstance(st.targets[0], ast.Name) and isinstance(
+                    st.value, ast.Dict):
+                consts.setdefault(st.targets[0].id, []).append(st.value)
+
+    class _D(ast.NodeTransformer):
+        def visit_Subscript(self, node):
+            self.generic_visit(node)
+            if isinstance(node.value, ast.Name) and len(consts.get(
+                    node.value.id, [])) == 1 and isinstance(
+                    node.slice, ast.Constant):
+                d = consts[node.value.id][0]
+                for k, v in zip(d.keys, d.values):
+                    if isinstance(k, ast.Constant) and \
+                            k.value == node.slice.value:
+                        return copy.deepcopy(v)
+            return node
+
+        def visit_IfExp(self, node):
+            self.generic_visit(node)
+            if isinstance(node.test, ast.Constant):
+                return node.body if node.test.value else node.orelse
+            return node
+    f = _D().visit(f)
+    wrapper = ast.Module(body=[f], type_ignores=[])
+    _split_tuple_assigns(wrapper)
+    f = wrapper.body[0]
+    for _ in range(8):
+        stores = {}
+        for n in ast.walk(f):
+            if isinstance(n, ast.Name) and isinstance(n.ctx, ast.Store):
+                stores.setdefault(n.id, 0)
+                stores[n.id] += 1
+        target = None
+        for i, st in enumerate(f.body):
+            if isinstance(st, ast.Assign) and len(st.targets) == 1 and \
+                    isinstance(st.targets[0], ast.Name) and \
+                    stores.get(st.targets[0].id) == 1 and not any(
+                    isinstance(x, (ast.Lambda, ast.NamedExpr, ast.Yield))
+                    for x in ast.walk(st.value)):
+                target = (i, st)
+                break
+        if target is None:
+            break
+        i, st = target
+        name, val = st.targets[0].id, st.value
+
+        class _S(ast.NodeTransformer):
+            def visit_Name(self, node):
+                if node.id == name and isinstance(node.ctx, ast.Load):
+                    return copy.deepcopy(val)
+                return node
+        rest = [_S().visit(x) for x in f.body[i + 1:]]
+        f.body = f.body[:i] + rest
+        f = _D().visit(f)
+    ast.fix_missing_locations(f)
+    return f
